@@ -16,6 +16,7 @@ from urllib3.filepost import encode_multipart_formdata
 import urllib3.filepost as FP
 
 ALPHA = '"\r\n;\\ aé-'
+ALPHAS = [ALPHA, ALPHA + "\x0b\x85\u2028=%"]      # thorough: + line boundaries str.splitlines() knows, '=', '%'
 BOUNDARY = "XbX"
 
 
@@ -229,7 +230,7 @@ def _layout_body(s, b, nfields, form):
 def c20_layout(s: str, b: bytes, nfields: int, form: int) -> bool:
     """
     pre: len(s) <= P.maxlen and len(b) <= P.maxlen
-    pre: all(ch in ALPHA for ch in s)
+    pre: all(ch in ALPHAS[P.alpha] for ch in s)
     pre: all(x in (13, 10, 45, 88, 98, 0, 255, 34) for x in b)
     pre: 0 <= nfields <= 3 and form == P.form
     pre: (P.which == "data_bytes") or len(b) == 0
@@ -302,7 +303,8 @@ def JOBS(tier):
             {"func": "c20_request", "part": {}, "timeout": t}]
     for which in ("name", "filename", "data_str", "data_bytes", "file_data_str"):
         for form in (0, 1, 2):
-            jobs.append({"func": "c20_layout", "part": {"which": which, "maxlen": ml, "form": form}, "timeout": t})
+            jobs.append({"func": "c20_layout", "part": {"which": which, "maxlen": 2, "form": form, "alpha": 0 if quick else 1},
+                         "timeout": t})
     return jobs
 
 
@@ -310,7 +312,7 @@ EVIDENCE = {
     "bounds": {"quick": "per-character lemma: every code point 0..0x10FFFF (one symbolic int); strings <= 3 chars over the 9-char "
                         "hostile alphabet for the parameter; layout: one symbolic component <= 2 chars/bytes, 0..3 extra concrete "
                         "fields, dict/list-of-tuples/RequestField input",
-               "thorough": "parameter strings <= 4, layout component <= 3"},
+               "thorough": "parameter strings <= 4; layout component <= 2 chars over the 14-character alphabet (adds VT, NEL, LS, '=', '%')"},
     "outside": ["components outside the 9-character / 8-byte alphabets in the layout harness (io.BytesIO realises them: one "
                 "path per value); lone surrogates (not encodable as UTF-8)", "mimetypes guessing for symbolic filenames"],
     "stubs": ["os.urandom in filepost (generated boundary) -> constant"],
